@@ -244,7 +244,8 @@ def execute(plan):
                 c = cfg["models"][op["m"]]
                 rng.stream(op["sub"])
                 dcfg = {"N": 3, "nv": c["nv"], "dseed": op["dseed"], "form": "tensor", "basis_mode": "mixed"}
-                if c.get("custom_unitary"):
+                # bases may only use unitaries the model holds NOW (a load may have replaced its dictionary)
+                if "unitary_dict" in st.__dict__ and "H" in st.unitary_dict:
                     dcfg["custom_unitary"] = True
                 din, _, bases = build_data(dcfg, with_bases=c["type"] != "positive")
                 kw = {} if bases is None else {"input_bases": bases}
